@@ -155,8 +155,7 @@ func verifHosts(l *roundRobinLoadBalancer) []*Host { return l.hosts.Load().([]*H
 //@   requires s != nil && host != nil
 //@   ensures result == nil ==> $sends == old($sends) + 1
 //@   ensures result != nil ==> $sends == old($sends)
-//@   preserves-held
-//@   modifies *, $sends
+//@   modifies nothing, $sends
 
 // QueryPlan.Next (abstractly): a plan has a finite number of hosts left; each non-nil result uses one.
 //@ iface proxycore.QueryPlan.Next [C05]
